@@ -805,12 +805,13 @@ func genC17(r *hx.R, tier string, scratch string) (*hx.Suite, error) {
 			return nil, err
 		}
 		special := dc.class == "annotations" || dc.class == "devices-shape" || dc.class == "top-level" || dc.class == "annotations-size" || dc.class == "string-content"
-		if special && i%2 == 0 || i%7 == 0 {
+		top := dc.class == "top-level" // every odd top level (null, arrays, scalars ...) under every configuration
+		if top || special && i%2 == 0 || i%7 == 0 {
 			if err := emit(nopCfgs[(i/2)%len(nopCfgs)], dc); err != nil {
 				return nil, err
 			}
 		}
-		if special && i%4 == 1 || i%11 == 0 {
+		if top || special && i%4 == 1 || i%11 == 0 {
 			if err := emit(nilCfg, dc); err != nil {
 				return nil, err
 			}
